@@ -377,7 +377,13 @@ class _GlobSplit(Generic[AnyStr]):
             else:
                 gstar = b'**' if is_bytes else '**'
                 is_globstarlong = False
-            parts.insert(0, _GlobPart(gstar, True, True, is_globstarlong, True, False))
+            if parts[0].is_globstar:
+                # The pattern already starts with a `globstar`: fold the implicit one into it (as `store` does
+                # for consecutive `globstar` segments) instead of degrading the explicit one to a name pattern.
+                if is_globstarlong and not parts[0].is_globstarlong:
+                    parts[0] = _GlobPart(gstar, True, True, True, parts[0].dir_only, False)
+            else:
+                parts.insert(0, _GlobPart(gstar, True, True, is_globstarlong, True, False))
 
         if self.no_abs and parts and parts[0].is_drive:
             raise ValueError('The pattern must be a relative path pattern')
